@@ -3,6 +3,7 @@ package c16
 
 import (
 	"math"
+	"os"
 	"sort"
 	"strconv"
 
@@ -567,6 +568,10 @@ func (g *aggGen) readerOf(f string, mayNest bool) Agg {
 // ---------------------------------------------------------------------------------------------
 // request settings
 
+// C16_NO_TWICE=1 (development aid): never generate a request that needs a field twice, to look
+// for violations behind the double delivery of doc values.
+var noTwice = os.Getenv("C16_NO_TWICE") != ""
+
 var sizes = []int{0, 0, 1, 1, 2, 3, 5, 9, 10, 11, 12, 100}
 var froms = []int{0, 0, 0, 1, 2, 5, 9, 10, 11, 15}
 
@@ -624,7 +629,7 @@ func genSetting(t *rapid.T, aggFields []string) Setting {
 		s.AfterIdx = rapid.IntRange(0, 59).Draw(t, "afterIdx")
 	}
 	// "the request sorts on an aggregated field": probability one half
-	onAgg := rapid.Bool().Draw(t, "sortOnAggregatedField")
+	onAgg := rapid.Bool().Draw(t, "sortOnAggregatedField") && !noTwice
 	s.Sort = genSort(t, aggFields, onAgg)
 	return s
 }
@@ -649,7 +654,7 @@ func genReq(t *rapid.T, p *params) Req {
 	var r Req
 	r.Q = genQuery(t, p)
 	// "two aggregations read the same field": probability one half
-	same := rapid.Bool().Draw(t, "twoAggregationsReadTheSameField")
+	same := rapid.Bool().Draw(t, "twoAggregationsReadTheSameField") && !noTwice
 	r.Aggs = genAggs(t, p, same)
 	fields := distinctFields(r.Aggs)
 	n := rapid.IntRange(3, 7).Draw(t, "nSettings")
